@@ -4,6 +4,7 @@
                                                                | ok n=<emitted> res=<reserve> | <case> ...
    case: set=<i> g=<so>.<eo>,... cut=<n>  |  oob site=<s> cut=<n>  |  nofuel cut=<n>
    U ...  the same with an (in practice) unbounded recursion depth: the reference for priority
+   D ...  the same with the DOCUMENTED depth 256 (a constant of the specification, not GenConsts.NDEPT)
    C <pat,pat,...>   ->  compile only, whatever the size (length computed in Z, nothing emitted): rej | ok n= res=
    T <pat,pat,...>   ->  the parse tree of the combined pattern as an S-expression (for the oracle) *)
 let pr = Printf.printf
@@ -85,6 +86,7 @@ let () =
     (match words l with
      | ["R"; f; n; p; c] -> do_rset depth (int_of_string f) (int_of_string n) p c
      | ["U"; f; n; p; c] -> do_rset big_depth (int_of_string f) (int_of_string n) p c
+     | ["D"; f; n; p; c] -> do_rset (nat_of_int 256) (int_of_string f) (int_of_string n) p c
      | ["T"; p] -> do_tree p
      | ["C"; p] -> do_comp p
      | _ -> pr "?\n");
